@@ -32,6 +32,7 @@ const (
 type termInfo struct {
 	log   []ent // the log of the leader of this term (offset = index); grows within the term
 	envOK bool  // the leader-side obligations towards this follower hold (see Node/Proofs.v, env_ok)
+	stale bool  // belongs to an earlier incarnation of the node (see newIncarnation): a new leader is elected when the term comes again
 }
 
 // H is the harness side of one schedule.
@@ -358,13 +359,15 @@ func (h *H) olderAccepted(kind string, t int64) {
 }
 
 // newIncarnation: the node has forgotten the terms it had answered (its shard was deleted, or by a defect that has been
-// reported): what the leaders of those terms knew about its log no longer describes it.  Their logs are dropped; a term that
-// is announced again gets a new leader (the generator follows through the counter).
+// reported): what the leaders of those terms knew about its log no longer describes it.  Their logs stop being compared; a
+// term that is announced again gets a new leader (the generator follows through the counter).
 func (h *H) newIncarnation() {
 	h.mu.Lock()
 	defer h.mu.Unlock()
 	h.incarnation++
-	h.terms = map[int64]*termInfo{}
+	for _, ti := range h.terms {
+		ti.envOK, ti.stale = false, true
+	}
 	h.reported = map[int64][2]int64{}
 	h.hasReported = map[int64]bool{}
 	h.ackedIn = map[int64]int64{}
